@@ -14,6 +14,7 @@ pub fn run(entry: &str, v: &Value) -> Option<Result<String, String>> {
         "async_client_small_frames_abandoned" => rt2(async_client_small_frames_abandoned()),
         "svs_cancel_during_next" => svs_cancel_during_next(),
         "svs_producer_panic" => svs_producer_panic(),
+        "svs_failed_commit_keeps_destination" => svs_failed_commit_keeps_destination(),
         "svs_early_stop_releases" => svs_early_stop_releases(),
         "svs_depths_and_slow_consumer" => svs_depths_and_slow_consumer(),
         "fleet_wide_broadcast" => fleet_wide_broadcast(v),
@@ -665,10 +666,90 @@ fn svs_producer_panic() -> Result<String, String> {
             if got.is_ok() || exists {
                 return Err(format!("producer panicked after writing {n} bytes ({compression:?}); pull_to_file returned {:?} and destination exists: {exists}", got.map(|_| ())));
             }
+            // the same with a destination that already holds good content: it must be exactly what it was
+            let dir = std::env::temp_dir().join(format!("repe-verif-panic2-{}-{n}", std::process::id()));
+            let _ = std::fs::create_dir_all(&dir);
+            let dest = dir.join("out.bin");
+            std::fs::write(&dest, b"previous good content").map_err(|e| e.to_string())?;
+            let got = repe::pull_to_file(&client, "boom", &dest);
+            let now = std::fs::read(&dest).ok();
+            let _ = std::fs::remove_dir_all(&dir);
+            if got.is_ok() || now.as_deref() != Some(b"previous good content".as_slice()) {
+                return Err(format!("producer panicked after writing {n} bytes ({compression:?}); pull_to_file over an existing destination returned {:?} and the destination now holds {:?}", got.map(|_| ()), now.map(|b| b.len())));
+            }
             n_ok += 1;
         }
     }
     Ok(format!("{n_ok} panicking producers all surfaced as errors"))
+}
+
+// ---------------------------------------------------------------------------------------------
+// C10: a pull whose final rename fails (the temp sibling vanished between fsync and rename -- e.g. removed by an overlapping
+// failed pull to the same destination) must leave a pre-existing destination exactly as it was, and no temp file behind.
+fn svs_failed_commit_keeps_destination() -> Result<String, String> {
+    use repe::value_stream::{Compression, RouterValueStreamExt, StreamOpts};
+    use std::io::Write;
+    const TRAILER: [u8; 8] = *b"TRAILER!";
+    struct Null;
+    impl Write for Null {
+        fn write(&mut self, b: &[u8]) -> std::io::Result<usize> { Ok(b.len()) }
+        fn flush(&mut self) -> std::io::Result<()> { Ok(()) }
+    }
+    let opts = StreamOpts { chunk_bytes: 1024, compression: Compression::None, zstd_level: 3, session_depth: 4 };
+    let router = repe::Router::new().with_writer_stream(
+        repe::BodyFormat::RawBinary,
+        move |resource: &str| {
+            (resource == "good").then_some(move |w: &mut dyn Write| -> std::io::Result<()> {
+                w.write_all(&vec![7u8; 5000])?;
+                w.write_all(&TRAILER)
+            })
+        },
+        opts,
+    );
+    let server = repe::Server::new(router);
+    let listener = server.listen("127.0.0.1:0").expect("bind");
+    let addr = listener.local_addr().expect("addr");
+    std::thread::spawn(move || {
+        let _ = server.serve(listener);
+    });
+    let client = repe::Client::connect(addr).expect("connect");
+    let mut cases = 0;
+    for preexisting in [true, false] {
+        let dir = std::env::temp_dir().join(format!("repe-verif-commitfail-{}-{preexisting}", std::process::id()));
+        let _ = std::fs::remove_dir_all(&dir);
+        std::fs::create_dir_all(&dir).map_err(|e| e.to_string())?;
+        let dest = dir.join("data.bin");
+        let temp = dir.join("data.bin.svspart");
+        if preexisting {
+            std::fs::write(&dest, b"previous good content").map_err(|e| e.to_string())?;
+        }
+        let t2 = temp.clone();
+        let vanished = std::sync::Arc::new(std::sync::atomic::AtomicBool::new(false));
+        let v2 = vanished.clone();
+        let res = repe::pull_to_file_trailer_verified(&client, "good", &dest, TRAILER.len(), Null, move |_d, _t| {
+            // fault: the temp sibling disappears before the rename
+            v2.store(std::fs::remove_file(&t2).is_ok(), std::sync::atomic::Ordering::SeqCst);
+            Ok(())
+        });
+        let now = std::fs::read(&dest).ok();
+        let temp_left = temp.exists();
+        let _ = std::fs::remove_dir_all(&dir);
+        if !vanished.load(std::sync::atomic::Ordering::SeqCst) {
+            return Ok("inconclusive: the temp sibling has another name; the fault could not be injected".into());
+        }
+        if res.is_ok() {
+            return Err("the rename of a vanished temp file was reported as a successful pull".into());
+        }
+        if temp_left {
+            return Err("a failed commit left the temp file behind".into());
+        }
+        let want: Option<&[u8]> = if preexisting { Some(b"previous good content") } else { None };
+        if now.as_deref() != want {
+            return Err(format!("the final rename failed (temp sibling vanished between fsync and rename); the destination, which held {:?} before the pull, now holds {:?}: a failed pull must leave it untouched", want.map(|b| b.len()), now.map(|b| b.len())));
+        }
+        cases += 1;
+    }
+    Ok(format!("{cases} failed commits left the destination untouched"))
 }
 
 // ---------------------------------------------------------------------------------------------
